@@ -246,7 +246,8 @@ struct Gen {
     size_t n = ch.chance(1, 2) ? ch.of(g_classes) : ch.range(1, 200*KiB); size_t k = ch.range(1, 40); if (k * n > 32*MiB) k = 1;
     if (pf.big_ok + census_ok > 0 && nhuge < 3 && ch.chance(1, 16)) { n = ch.range(16*MiB + 1, 24*MiB); k = 1; }   // a huge block (own segment) left behind by a thread
     if (next_slot + (int)k > NSLOTS || live_bytes + k * n > 512*MiB) return; int s0 = next_slot; next_slot += (int)k;
-    Op op("talloc"); op.u("s", (uint64_t)s0).u("k", k).u("n", n); if (ch.chance(1, 4)) op.s("f", "zalloc"); if (subprocs && ch.chance(1, 2)) op.u("sp", ch.pick(2)); out.push_back(op);
+    Op op("talloc"); op.u("s", (uint64_t)s0).u("k", k).u("n", n); if (ch.chance(1, 4)) op.s("f", "zalloc");
+    else if (k == 1 && n <= 200*KiB && ch.chance(1, 3)) { static const std::vector<size_t> as = { 4096, 64*KiB, 4*MiB, 64*MiB, 64*MiB, 128*MiB }; op.u("a", ch.of(as)); }   // over-aligned block left behind (> 32 MiB: its segment comes straight from the OS) if (subprocs && ch.chance(1, 2)) op.u("sp", ch.pick(2)); out.push_back(op);
     for (size_t i = 0; i < k; i++) note_alloc(s0 + (int)i, n, 1, 0, false, -1);
     groups.push_back({ s0, (int)k, n });
   }
